@@ -242,6 +242,7 @@ static WB_BOOL encoder_init_output(WBXMLEncoder *encoder);
  */
 
 static WBXMLError parse_node(WBXMLEncoder *encoder, WBXMLTreeNode *node, WB_BOOL enc_end);
+static WBXMLError parse_single_node(WBXMLEncoder *encoder, WBXMLTreeNode *node, WB_BOOL enc_end);
 static WBXMLError parse_element(WBXMLEncoder *encoder, WBXMLTreeNode *node, WB_BOOL has_content);
 static WBXMLError parse_element_end(WBXMLEncoder *encoder, WBXMLTreeNode *node, WB_BOOL has_content);
 static WBXMLError parse_attribute(WBXMLEncoder *encoder, WBXMLAttribute *attribute);
@@ -998,6 +999,30 @@ static WB_BOOL encoder_init_output(WBXMLEncoder *encoder)
 static WBXMLError parse_node(WBXMLEncoder *encoder, WBXMLTreeNode *node, WB_BOOL enc_end)
 {
     WBXMLError ret = WBXML_OK;
+
+    /* Parse this node, then its following siblings (iteratively: a wide
+     * document must not exhaust the stack) */
+    while (node != NULL) {
+        if ((ret = parse_single_node(encoder, node, enc_end)) != WBXML_OK)
+            return ret;
+
+        node = node->next;
+        enc_end = TRUE;
+    }
+
+    return WBXML_OK;
+}
+
+/**
+ * @brief Parse an XML Node and its children (but not its siblings)
+ * @param encoder The WBXML Encoder
+ * @param node The node to parse
+ * @param enc_end If node is an element, do we encode its end ?
+ * @return WBXML_OK if parsing is OK, an error code otherwise
+ */
+static WBXMLError parse_single_node(WBXMLEncoder *encoder, WBXMLTreeNode *node, WB_BOOL enc_end)
+{
+    WBXMLError ret = WBXML_OK;
     
     /* Set current node */
     encoder->current_node = node;
@@ -1120,11 +1145,7 @@ static WBXMLError parse_node(WBXMLEncoder *encoder, WBXMLTreeNode *node, WB_BOOL
     encoder->current_tag = NULL;
     encoder->current_node = NULL;
 
-    /* Parse next node */
-    if (node->next != NULL)
-        return parse_node(encoder, node->next, TRUE);
-    else
-        return WBXML_OK;
+    return WBXML_OK;
 }
 
 
@@ -3675,6 +3696,7 @@ static void wbxml_strtbl_collect_strings(WBXMLEncoder *encoder, WBXMLTreeNode *n
     WB_ULONG i = 0;
     WB_UTINY *value_left = NULL;
 
+    while (node != NULL) {
     switch (node->type)
     {
         case WBXML_TREE_TEXT_NODE:
@@ -3734,8 +3756,9 @@ static void wbxml_strtbl_collect_strings(WBXMLEncoder *encoder, WBXMLTreeNode *n
     if (node->children != NULL)
         wbxml_strtbl_collect_strings(encoder, node->children, strings);
 
-    if (node->next != NULL)
-        wbxml_strtbl_collect_strings(encoder, node->next, strings);
+    /* Following siblings (iteratively: a wide document must not exhaust the stack) */
+    node = node->next;
+    } /* while */
 }
 
 
